@@ -456,6 +456,7 @@ func checkC03Linearizable(res *vlib.Result, h *hHistory) {
 // exhausted is denied even though other proxies wait.
 func checkLoadOrder(res *vlib.Result, r *vlib.Rand, ctxID int) {
 	b := newVBroker(ctxID, nil, "", "")
+	defer b.stop(res, "C03")
 	n := r.Range(3, 10)
 	clientNAT := r.PickString([]string{"", NATUnknown, NATRestricted, NATUnrestricted})
 	pool := eligiblePool(clientNAT)
